@@ -1,6 +1,7 @@
 //! rt-store: C11, C12, C13, C15, C21 — the real storage code of aranya-runtime
 //! (storage/mod.rs, storage/linear/mod.rs, storage/linear/libc/imp.rs, storage/linear/testing.rs).
 mod bfs;
+mod interpose;
 mod policy;
 mod props;
 mod store;
@@ -12,6 +13,7 @@ fn main() {
         "C12" => props::c12::run(&args),
         "C13" => props::c13::run(&args),
         "C11" => props::c11::run(&args),
+        "C15" => props::c15::run(&args),
         p => mcx::machinery_error(&format!("rt-store does not serve {p}")),
     }
 }
